@@ -4,6 +4,7 @@ CONSTANTS
   MaxWrappers = 3
   MaxDepth = 8
   MaxMarks = 1
+  EnableEmpty = FALSE
 INVARIANT AtMostOnce
 INVARIANT OnlyViaOwner
 INVARIANT OneOwner
